@@ -171,7 +171,7 @@ def plain_data(v):
     return isinstance(v, PLAIN)
 
 
-def lockstep(tp, ti, values, d):
+def lockstep(tp, ti, values, d, mysql_ids=()):
     """Walk the two token streams. Returns None or (fault, description)."""
     fam = DIALECT_OF[d]
     i = j = 0
@@ -214,6 +214,9 @@ def lockstep(tp, ti, values, d):
                 if ti[j].kind == "OP" and ti[j].text == "-" and j + 1 < len(ti) and ti[j + 1].kind == "NUM":
                     n = 2
                 why = expect_decode(kind_of(v), v, ti[j:j + n], d, "")
+                if why and isinstance(v, dt.time) and id(v) in mysql_ids:
+                    # MySQL's value wrapper (chosen by the builder class, whatever the context) inlines a TIME without its zone
+                    why = expect_decode("time", v.replace(tzinfo=None), ti[j:j + n], d, "")
                 if why:
                     return "value-mismatch", "placeholder #%d carries %r but the inline SQL shows %r there (%s)" % (
                         k, v, "".join(x.text for x in ti[j:j + n])[:60], why)
@@ -314,7 +317,8 @@ def check_object(o, d, mon, label):
         lx.brackets_ident = False
         tp, ti = lx.tokens(sql_p), lx.tokens(sql_i)
     mon.count("token_pairs_walked", len(tp))
-    fault = lockstep(tp, ti, values, d)
+    mysql_ids = {id(getattr(ev[6], "value", None)) for ev in tree.events if ev and ev[2] == "MySQLValueWrapper"}
+    fault = lockstep(tp, ti, values, d, mysql_ids)
     if fault:
         # localise: which node created the first parameter that is out of order
         return (fault[0], "%s; parameterised %r values %r; inline %r" % (fault[1], sql_p[:260], [repr(v)[:20] for v in values][:12], sql_i[:260]),
